@@ -113,7 +113,23 @@ def pair_rule(chk, db):
                     if call and len(call["a"]) >= 2 and ss:
                         idx_name = astx.show(astx.strip_casts(call["a"][1]), 40)
                         rhs = ss[-1].rhs
-                        if rhs is not None and idx_name not in astx.show(rhs, 80):
+                        # a const local stands for its initialiser (`constexpr auto newIndex = ...decltype(index)::value`)
+                        r0 = astx.strip_casts(rhs) if rhs is not None else None
+                        hops = 0
+                        while r0 is not None and r0.get("k") == "ref" and r0.get("d") == "local" and hops < 3:
+                            hops += 1
+                            init = None
+                            for g in db.by_q.get((ss[-1].info or {}).get("func", ""), []):
+                                for st in astx.walk_stmts(g.get("body")):
+                                    if st.get("k") == "decl":
+                                        for v in st["vars"]:
+                                            if v.get("n") == r0["n"] and v.get("init") is not None:
+                                                init = v["init"]
+                            if init is None:
+                                break
+                            rhs = init
+                            r0 = astx.strip_casts(init)
+                        if rhs is not None and idx_name not in astx.show(rhs, 120):
                             bad = (p, t, "the stored index `%s` is not the constructed one `%s`" % (astx.show(rhs, 40), idx_name))
         chk.obligation("PAIR", astx.sig(f), bad is None)
         if bad:
